@@ -23,6 +23,8 @@ type c07Case struct {
 	Exts    []string     `json:"exts,omitempty"`
 	Missing bool         `json:"missing,omitempty"` // target directory does not exist beforehand
 	PreOps  []string     `json:"preOps,omitempty"`  // From-Root: earlier operations on the same node tree (must not weaken validation)
+	Again   int          `json:"again,omitempty"`   // From-Root with PreOps: the last Again nodes are added after those operations
+	Reader  int          `json:"reader,omitempty"`  // From-Markdown: dynamic type / position of the reader (ops.Faults.IOKind: 0, 3, 4, 5, 8, 9)
 }
 
 func init() { registerReplay("c07", c07Check) }
@@ -70,6 +72,13 @@ func c07Check(c c07Case) string {
 		cs.Root = &c.Forest[0].Name
 		cs.Prog = preorderProgram(model.Merge(c.Forest)[0])
 		cs.PreOps = c.PreOps
+		if c.Again > 0 && c.Again < len(cs.Prog) && len(c.PreOps) > 0 {
+			cs.MidProg = cs.Prog[len(cs.Prog)-c.Again:]
+			cs.Prog = cs.Prog[:len(cs.Prog)-c.Again]
+		}
+	}
+	if c.Entry == "md" || c.Entry == "mdalias" {
+		cs.Faults.IOKind = c.Reader
 	}
 	cs.Opts.DryRun = c.DryRun
 	cs.Opts.Massive = c.Massive
@@ -237,6 +246,10 @@ func TestC07Random(t *testing.T) {
 			Exts: genExts(f.Names()).Draw(rt, "exts"), Missing: rapid.IntRange(0, 4).Draw(rt, "missing") == 0}
 		if (entry == "root" || entry == "alias") && rapid.Bool().Draw(rt, "withPreOps") {
 			c.PreOps = rapid.SliceOfN(rapid.SampledFrom(preOpPool), 1, 3).Draw(rt, "preOps")
+			c.Again = rapid.IntRange(0, 3).Draw(rt, "again")
+		}
+		if entry == "md" || entry == "mdalias" {
+			c.Reader = rapid.SampledFrom([]int{0, 0, 0, 3, 4, 5, 8, 9}).Draw(rt, "reader")
 		}
 		c07Record(col, c)
 		if msg := c07Check(c); msg != "" {
